@@ -580,3 +580,110 @@ def group_is_mandatory(seq, gid):
             if any(find_group(a, gid) for a in inner):
                 return False
     return False
+
+
+# ------------------------------------------------------------------------------------------------ reference matcher on witness words
+# Which of several decompositions a regular expression picks (greedy / lazy, alternatives in order) is not a property of its language.
+# Rules that must know what a GROUP CAPTURES on a given witness text use this small backtracking matcher over the normalised tree
+# (leftmost match, alternatives and repetitions tried in the order the expression prescribes).  It works on the checker's own tree; the
+# expression object of the analysed program is never built or run.
+
+def _with(d, k, v):
+    d = dict(d)
+    d[k] = v
+    return d
+
+
+def tree_search(seq, text, budget=400000):
+    """Group spans {gid: (start, end)} (0 = whole match) of the leftmost match of the normalised sequence in `text`, or None."""
+    import sys
+    n = len(text)
+    steps = [0]
+
+    def cp(i):
+        c = ord(text[i]) if isinstance(text, str) else text[i]
+        return c if c < 256 else OTHER
+
+    def at(name, pos):
+        if name == 'AT_BEGINNING_LINE':
+            return pos == 0 or text[pos - 1] in ('\n', 10)
+        if name in ('AT_BEGINNING', 'AT_BEGINNING_STRING'):
+            return pos == 0
+        if name == 'AT_END_LINE':
+            return pos == n or text[pos] in ('\n', 10)
+        if name == 'AT_END':
+            return pos == n or (pos == n - 1 and text[pos] in ('\n', 10))
+        if name == 'AT_END_STRING':
+            return pos == n
+        raise Unsupported('anchor %s' % name)
+
+    def run(seq, i, pos, caps, k):
+        steps[0] += 1
+        if steps[0] > budget:
+            raise Unsupported('matching budget exhausted')
+        if i == len(seq):
+            return k(pos, caps)
+        nd = seq[i]
+        kind = nd[0]
+        if kind == 'set':
+            if pos < n and cp(pos) in nd[1]:
+                return run(seq, i + 1, pos + 1, caps, k)
+            return None
+        if kind == 'at':
+            return run(seq, i + 1, pos, caps, k) if at(nd[1], pos) else None
+        if kind == 'grp':
+            def after(p2, c2, _start=pos, _gid=nd[1]):
+                c3 = dict(c2)
+                c3[_gid] = (_start, p2)
+                return run(seq, i + 1, p2, c3, k)
+            return run(nd[2], 0, pos, caps, after)
+        if kind == 'alt':
+            for a in nd[1]:
+                r = run(a, 0, pos, caps, lambda p2, c2: run(seq, i + 1, p2, c2, k))
+                if r is not None:
+                    return r
+            return None
+        if kind == 'rep':
+            lo, hi, greedy, inner = nd[1], nd[2], nd[3], nd[4]
+
+            def rep(count, p, c):
+                def more():
+                    if hi is not None and count >= hi:
+                        return None
+                    return run(inner, 0, p, c, lambda p2, c2: None if (p2 == p and count >= lo) else rep(count + 1, p2, c2))
+
+                def stop():
+                    return run(seq, i + 1, p, c, k) if count >= lo else None
+                if greedy:
+                    r = more()
+                    return r if r is not None else stop()
+                r = stop()
+                return r if r is not None else more()
+            return rep(0, pos, caps)
+        if kind == 'look':
+            if nd[1] != 1:
+                raise Unsupported('look-behind')
+            hit = run(nd[3], 0, pos, caps, lambda p2, c2: c2)
+            if (hit is not None) != bool(nd[2]):
+                return run(seq, i + 1, pos, hit if (hit is not None and not nd[2]) else caps, k)
+            return None
+        if kind == 'ref':
+            if nd[1] not in caps:
+                return None
+            a, b = caps[nd[1]]
+            sub = text[a:b]
+            if text[pos:pos + len(sub)] == sub:
+                return run(seq, i + 1, pos + len(sub), caps, k)
+            return None
+        raise Unsupported('node %s' % kind)
+
+    old = sys.getrecursionlimit()
+    sys.setrecursionlimit(max(old, 60000))
+    try:
+        for start in range(n + 1):
+            r = run(tuple(seq), 0, start, {}, lambda p2, c2, _s=start: _with(c2, 0, (_s, p2)))
+            if r is not None:
+                return r
+        return None
+    finally:
+        sys.setrecursionlimit(old)
